@@ -1,54 +1,25 @@
 (* C14 (stretch) — THE TABLE OF PANIC SITES (types and legend:
    model/UntrustedPanicSites.v).  The list of sites is HAND-MADE (a site the
    reading missed is not in it); Coq checks the coverage column, and only for
-   the two constructors of fixed shape:
-     CModel op w f pf      op CAN panic (w), the model function f that performs
-                           it behind the guard never does (pf)
-     CLemma raw w guard pf the as-written site WITHOUT its guard can panic (w),
-                           under the guard it cannot (pf)
+   the two constructors that take the function containing the site as a
+   FUNCTIONAL of the panicking operation (proofs/UntrustedSiteFunctionals.v):
+     CModel op w F reach f same pf   op can panic (w); F is the body of the model
+                           function f over the operation (same : F op = f); with
+                           an always-panicking operation F panics on some input
+                           (reach: the operation is really called); f never panics
+     CLemma raw w F reach pf         the same for the statements AS WRITTEN in the
+                           Go function (test in front of the expression included)
+                           over the raw machine-integer operation
    CArgued / CStdlib / CHarnessOnly entries carry NO theorem; lemma or theorem
-   names inside their text are pointers for the reader, not checked. *)
+   names inside their text are pointers for the reader, not checked.  The Fail
+   tests at the end show that the trivial inhabitants the fourth audit found
+   for the earlier shapes no longer type-check. *)
 From Coq Require Import String List NArith ZArith.
 From Tink Require Import Bytes UntrustedConsts Untrusted UntrustedSpec UntrustedProofs.
 From Tink Require Import UntrustedSites UntrustedSitesProofs UntrustedPanicSites.
-From Tink Require Import UntrustedParams UntrustedParamsProofs.
+From Tink Require Import UntrustedParams UntrustedParamsProofs UntrustedSiteFunctionals.
 Import ListNotations.
 Open Scope string_scope.
-
-(* a standard library that answers nothing (only needed to exhibit a panicking input) *)
-Definition std_none : stdlib :=
-  mkStd (fun _ _ => false) (fun _ _ => None) (fun _ => []) (fun _ _ => None) (fun _ _ => [])
-        (fun _ _ _ _ _ => None) (fun _ _ _ _ _ _ _ _ => false) (fun _ _ => []).
-
-(* parse a key, then build its primitive: never panics *)
-Lemma parse_then_prim_total L kd prefix idreq :
-  bind (parse_key L kd prefix idreq) (prim_ok L) <> Panic.
-Proof.
-  destruct (parse_key L kd prefix idreq) as [d| |] eqn:E; cbn [bind]; try discriminate.
-  - exact (parse_then_prim_np L kd prefix idreq d E).
-  - exfalso. exact (parse_key_np L kd prefix idreq E).
-Qed.
-
-Lemma encode_point_go_np x y c : zlen x = c -> zlen y = c -> encode_point_go x y c <> Panic.
-Proof. intros Hx Hy. rewrite (encode_point_go_ok x y c Hx Hy). discriminate. Qed.
-
-Lemma jwt_ecdsa_parsers_np (p : bool * stdlib * keydata * N * N) :
-  (let '(priv, L, kd, prefix, idreq) := p in
-   if priv then parse_jwt_ecdsa_priv L kd prefix idreq else parse_jwt_ecdsa_pub L kd prefix idreq) <> Panic.
-Proof.
-  destruct p as [[[[priv L] kd] prefix] idreq]. destruct priv.
-  - apply parse_jwt_ecdsa_priv_np.
-  - apply parse_jwt_ecdsa_pub_np.
-Qed.
-
-Lemma iface_has_idreq_np o : o <> None -> iface_has_idreq o <> Panic.
-Proof. destruct o; [discriminate|congruence]. Qed.
-
-Lemma make_z_np n : (0 <= n)%Z -> make_z n n <> Panic.
-Proof.
-  intros H. unfold make_z. destruct ((n <? 0)%Z || (n <? n)%Z)%bool eqn:E; [|discriminate].
-  apply Bool.orb_true_iff in E. destruct E as [E|E]; [apply Z.ltb_lt in E|apply Z.ltb_lt in E]; exfalso; auto with zarith.
-Qed.
 
 Definition panic_sites : list site := [
   mkSite "keyset/validation.go" "Validate" "keyset.Key, keyset.PrimaryKeyId (direct field access)" KNilDeref
@@ -80,8 +51,7 @@ Definition panic_sites : list site := [
     (CArgued "nil test two lines above; the model's read_encrypted has no Panic constructor for it");
   mkSite "keyset/handle.go" "Handle.Entry" "h.entries[i]" KIndex
     "if h == nil { error }; if i < 0 || i >= h.Len() { error }"
-    (CLemma (fun p : list entry * Z => entry_raw (fst p) (snd p)) (ex_intro _ ([], 0%Z) eq_refl)
-            (fun p => (0 <= snd p < Z.of_nat (length (fst p)))%Z) (fun p => entry_raw_np (fst p) (snd p)));
+    (CLemma entry_raw2 entry_raw2_panics entry_F entry_F_reach entry_F_np);
   mkSite "keyset/handle.go" "Handle.Primary / Len / Public" "h.primaryKeyEntry, h.entries" KNilDeref
     "if h == nil { return error / 0 }"
     (CArgued "a handle returned by a reader is non-nil whenever err == nil");
@@ -114,16 +84,13 @@ Definition panic_sites : list site := [
     (CArgued "returns an error; no panic in the function");
   mkSite "internal/ec/ec.go" "BigIntBytesToFixedSizeBuffer" "make([]byte, size-len(bigIntBytes), size)" KMake
     "if len(bigIntBytes) < size (so 0 < size-len <= size); callers pass size = 32/48/66 or +1"
-    (CLemma (fun p : bytes * Z => fixed_size_go (fst p) (snd p)) (ex_intro _ ([0%N], (-1)%Z) eq_refl)
-            (fun p => (0 <= snd p)%Z) (fun p => fixed_size_go_np (fst p) (snd p)));
+    (CLemma make2 make2_panics bigint_make_F bigint_make_F_reach bigint_make_F_np);
   mkSite "internal/ec/ec.go" "BigIntBytesToFixedSizeBuffer" "bigIntBytes[i] for i < len(bigIntBytes)-size" KIndex
     "reached only when len(bigIntBytes) > size >= 0, so 0 <= i < len"
-    (CLemma (fun p : bytes * Z => fixed_size_go (fst p) (snd p)) (ex_intro _ ([0%N], (-1)%Z) eq_refl)
-            (fun p => (0 <= snd p)%Z) (fun p => fixed_size_go_np (fst p) (snd p)));
+    (CLemma index2 index2_panics bigint_index_F bigint_index_F_reach bigint_index_F_np);
   mkSite "internal/ec/ec.go" "BigIntBytesToFixedSizeBuffer" "bigIntBytes[len(bigIntBytes)-size:]" KSlice
     "len(bigIntBytes) > size >= 0"
-    (CModel (fun q : nat * nat * bytes => slice (fst (fst q)) (snd (fst q)) (snd q)) (ex_intro _ (1%nat, 0%nat, []) eq_refl)
-            (fun p : bytes * nat => fixed_size (fst p) (snd p)) (fun p => fixed_size_np (fst p) (snd p)));
+    (CModel slice3 slice3_panics fixed_size_F fixed_size_F_reach fixed_size2 fixed_size_F_same fixed_size2_np);
   mkSite "internal/outputprefix/outputprefix.go" "Tink / Legacy" "binary.BigEndian.PutUint32(prefix[1:], id)" KSlice
     "prefix := make([]byte, 5): constant size"
     (CArgued "constant bounds");
@@ -135,56 +102,37 @@ Definition panic_sites : list site := [
     (CArgued "serialisation path of an accepted key; encodingLength is a byte length of the modulus");
   mkSite "signature/ecdsa/protoserialization.go" "encodePoint" "make([]byte, 1+2*coordinateSize); encodedPoint[0] = 0x04" KMake
     "coordinateSize in {32, 48, 66} (coordinateSizeForCurve errors otherwise)"
-    (CLemma (fun p : bytes * bytes * Z => encode_point_go (fst (fst p)) (snd (fst p)) (snd p))
-            (ex_intro _ ([1; 2; 3; 4]%N, [5%N], 2%Z) eq_refl)
-            (fun p => zlen (fst (fst p)) = snd p /\ zlen (snd (fst p)) = snd p)
-            (fun p g => encode_point_go_np _ _ _ (proj1 g) (proj2 g)));
+    (CLemma make2 make2_panics new_point_make_F new_point_make_F_reach new_point_F_np);
   mkSite "signature/ecdsa/protoserialization.go" "encodePoint" "encodedPoint[xStartPos:], encodedPoint[yStartPos:] with xStartPos = 1+c-len(x)" KSlice
     "x, y are results of BigIntBytesToFixedSizeBuffer(., c): exactly c bytes"
-    (CLemma (fun p : bytes * bytes * Z => encode_point_go (fst (fst p)) (snd (fst p)) (snd p))
-            (ex_intro _ ([1; 2; 3; 4]%N, [5%N], 2%Z) eq_refl)
-            (fun p => zlen (fst (fst p)) = snd p /\ zlen (snd (fst p)) = snd p)
-            (fun p g => encode_point_go_np _ _ _ (proj1 g) (proj2 g)));
+    (CLemma slice3z slice3z_panics new_point_slice_F new_point_slice_F_reach new_point_F_np);
   mkSite "signature/ecdsa/protoserialization.go" "newPublicKeyFromProto" "encodePoint(x, y, c) after two BigIntBytesToFixedSizeBuffer(., c)" KSlice
     "as above"
-    (CModel (fun q : bytes * bytes * nat => encode_point (fst (fst q)) (snd (fst q)) (snd q))
-            (ex_intro _ ([1; 2; 3; 4]%N, [5%N], 2%nat) eq_refl)
-            (fun p : stdlib * list field * N * N => ecdsa_pub_of (fst (fst (fst p))) (snd (fst (fst p))) (snd (fst p)) (snd p))
-            (fun p => ecdsa_pub_of_np _ _ _ _));
+    (CModel encode_point3 encode_point3_panics ecdsa_pub_of_F ecdsa_pub_of_F_reach ecdsa_pub_of4 ecdsa_pub_of_F_same ecdsa_pub_of4_np);
   mkSite "signature/ecdsa/protoserialization.go" "newPublicKeyFromProto" "protoECDSAKey.GetParams().GetCurve() etc. (nil params sub-message)" KNilDeref
     "getters"
     (CArgued "getters are total in the model: lemma absent_submessage_reads_as_defaults (an absent sub-message reads as all defaults), named here, not checked by the table");
   mkSite "signature/ecdsa/protoserialization.go:130" "validateEncodingAndGetCoordinates (serializer)" "publicPoint[0] != 0x04" KIndex
     "if len(publicPoint) != 2*coordinateSize+1 { return error } (the statement before; coordinateSize in {32,48,66})"
-    (CLemma (fun p : bytes * Z => first_byte (fst p)) (ex_intro _ ([], 0%Z) eq_refl)
-            (fun p => (0 <= snd p)%Z /\ zlen (fst p) = (2 * snd p + 1)%Z)
-            (fun p g => first_byte_np _ _ (proj1 g) (proj2 g)));
+    (CLemma index2 index2_panics serializer_first_byte_F serializer_first_byte_F_reach serializer_first_byte_F_np);
   mkSite "signature/ecdsa/protoserialization.go:133" "validateEncodingAndGetCoordinates (serializer)" "publicPoint[1:], xy[:coordinateSize], xy[coordinateSize:]" KSlice
     "if len(publicPoint) != 2*coordinateSize+1 { return error } (same test)"
-    (CLemma (fun p : bytes * Z => point_coords_go (fst p) (snd p)) (ex_intro _ ([], 0%Z) eq_refl)
-            (fun p => (0 <= snd p)%Z /\ zlen (fst p) = (1 + 2 * snd p)%Z)
-            (fun p g => point_coords_go_np _ _ (proj1 g) (proj2 g)));
+    (CLemma slice3z slice3z_panics serializer_coords_F serializer_coords_F_reach serializer_coords_F_np);
   mkSite "signature/ecdsa/signer.go, verifier.go" "NewSigner / NewVerifier" "publicPoint[1:], xy[:len(xy)/2], xy[len(xy)/2:]" KSlice
     "NewPublicKey validated the point (len >= 1)"
-    (CModel ecdsa_point_slices (ex_intro _ [] eq_refl)
-            (fun p : stdlib * keydata * N * N => bind (parse_key (fst (fst (fst p))) (snd (fst (fst p))) (snd (fst p)) (snd p)) (prim_ok (fst (fst (fst p)))))
-            (fun p => parse_then_prim_total _ _ _ _));
+    (CModel ecdsa_point_slices ecdsa_point_slices_panics ecdsa_prim_F ecdsa_prim_F_reach parse_then_prim4 ecdsa_prim_F_same parse_then_prim4_np);
   mkSite "signature/ecdsa/key.go" "NewPublicKey / NewPrivateKeyFromPublicKey" "ecdh curve.NewPublicKey(point), curve.NewPrivateKey(scalar)" KStdlib
     "none needed: crypto/ecdh returns errors for wrong lengths, off-curve points, the point at infinity, out-of-range scalars"
     (CStdlib "ec_point_ok / ec_pub_of_priv of the record stdlib (oracle ops c14_ecdh_point, c14_ecdh_pub)");
   mkSite "signature/ed25519/key.go" "NewPrivateKey / NewPrivateKeyWithPublicKey" "ed25519.NewKeyFromSeed(seed) (panics unless len(seed) == 32)" KStdlib
     "if privateKeyBytes.Len() != 32 { return error }; if pubKey == nil { return error }"
-    (CModel (fun q : stdlib * bytes => ed25519_from_seed (fst q) (snd q)) (ex_intro _ (std_none, []) eq_refl)
-            (fun p : stdlib * keydata * N * N => parse_ed25519_priv (fst (fst (fst p))) (snd (fst (fst p))) (snd (fst p)) (snd p))
-            (fun p => parse_ed25519_priv_np _ _ _ _));
+    (CModel from_seed2 from_seed2_panics parse_ed25519_priv_F parse_ed25519_priv_F_reach parse_ed25519_priv4 parse_ed25519_priv_F_same parse_ed25519_priv4_np);
   mkSite "signature/ed25519/key.go" "NewPrivateKey" "privKey.Public().(ed25519.PublicKey)" KTypeAssert
     "ed25519.PrivateKey.Public always returns ed25519.PublicKey"
     (CArgued "documented dynamic type");
   mkSite "signature/ed25519/signer.go" "NewSigner" "ed25519.NewKeyFromSeed(privateKey.PrivateKeyBytes())" KStdlib
     "a *PrivateKey only exists with a 32-byte seed (constructors above)"
-    (CModel (fun q : stdlib * bytes => ed25519_from_seed (fst q) (snd q)) (ex_intro _ (std_none, []) eq_refl)
-            (fun p : stdlib * keydata * N * N => bind (parse_key (fst (fst (fst p))) (snd (fst (fst p))) (snd (fst p)) (snd p)) (prim_ok (fst (fst (fst p)))))
-            (fun p => parse_then_prim_total _ _ _ _));
+    (CModel from_seed2 from_seed2_panics ed25519_signer_F ed25519_signer_F_reach ed25519_signer4 ed25519_signer_F_same ed25519_signer4_np);
   mkSite "signature/rsassapkcs1, rsassapss, jwt/jwtrsassapkcs1, jwt/jwtrsassapss protoserialization.go" "parsePublicKey / ParseKey" "int(exponent.Int64()) (four files, same statement)" KIntConv
     "if !exponent.IsInt64() { return error }"
     (CArgued "integer conversion: truncates, does not panic; lemma rsa_exponent_fits_int64 and the single regression vector of theorem C14_rsa_exponent_truncation_rejected (one key type), named here, not checked by the table; the four parsers are compared with the model on the directed exponent grid of gen.go");
@@ -211,51 +159,37 @@ Definition panic_sites : list site := [
     (CArgued "integer conversion: does not panic; the value is compared with 64 / 96 / 128");
   mkSite "internal/signature/slhdsa/slhdsa.go" "DecodePublicKey" "pkEnc[0:p.n], pkEnc[p.n:2*p.n]" KSlice
     "if len(pkEnc) != p.PublicKeyLength() { return error }"
-    (CLemma (fun p : Z * bytes => slh_pk_slices (fst p) (snd p)) (ex_intro _ (1%Z, []) eq_refl)
-            (fun p => zlen (snd p) = (2 * fst p)%Z) (fun p => slh_pk_slices_np (fst p) (snd p)));
+    (CLemma slice3z slice3z_panics slh_decode_pk_F slh_decode_pk_F_reach slh_decode_pk_F_np);
   mkSite "internal/signature/slhdsa/slhdsa.go" "DecodeSecretKey" "skEnc[0:n], [n:2n], [2n:3n], [3n:4n]" KSlice
     "if len(skEnc) != p.SecretKeyLength() { return error }"
-    (CModel (fun q : nat * nat * bytes => slice (fst (fst q)) (snd (fst q)) (snd q)) (ex_intro _ (1%nat, 0%nat, []) eq_refl)
-            (fun p : keydata * N * N => parse_slhdsa_priv (fst (fst p)) (snd (fst p)) (snd p)) (fun p => parse_slhdsa_priv_np _ _ _));
+    (CModel slice3 slice3_panics parse_slhdsa_priv_F parse_slhdsa_priv_F_reach parse_slhdsa_priv3 parse_slhdsa_priv_F_same parse_slhdsa_priv3_np);
   mkSite "signature/mldsa/key.go, jwt/jwtmldsa/key.go" "NewPublicKey" "checkPublicKeyLengthForInstance(len(keyBytes), instance)" KStdlib
     "length compared before DecodePublicKey"
     (CArgued "length test in front of the decoder; the model's parser has no Panic constructor");
   mkSite "hybrid/ecies/protoserialization.go" "parseParameters" "proto.Clone(protoParams.GetDemParams().GetAeadDem()).(*tinkpb.KeyTemplate); demTemplate.OutputPrefixType = RAW" KTypeAssert
     "if GetDemParams() == nil { error }; if GetAeadDem() == nil { error } (two lines above)"
-    (CModel set_prefix_raw (ex_intro _ None eq_refl)
-            (fun q : list field * N => ecies_params_of parse_params_full (fst q) (snd q))
-            (fun q => ecies_params_of_np _ _ _ parse_params_full_np));
+    (CModel set_prefix_raw set_prefix_raw_panics ecies_params_F ecies_params_F_reach ecies_params2 ecies_params_F_same ecies_params2_np);
   mkSite "hybrid/ecies/protoserialization.go" "parseParameters" "protoserialization.ParseParameters(demTemplate) on an attacker-chosen template (any registered type URL, any value)" KStdlib
-    "every parameters parser returns errors (all 30 are transcribed, model/UntrustedParams.v parse_params: total functions whose only checked operation is the assignment through the DEM template pointer of a nested ECIES format, behind its nil test at every nesting level); NewParameters accepts only six DEM parameter sets"
-    (CModel set_prefix_raw (ex_intro _ None eq_refl) parse_params_full parse_params_full_np);
+    "every parameters parser returns errors (all 29 are transcribed, model/UntrustedParams.v parse_params: total functions whose only checked operation is the assignment through the DEM template pointer of a nested ECIES format, behind its nil test at every nesting level); NewParameters accepts only six DEM parameter sets"
+    (CArgued "28 of the 29 transcribed parameters parsers (model/UntrustedParams.v pp_*) are total functions with no Panic constructor in their definition; the one checked operation, set_prefix_raw in ecies_params_of (a nested ECIES format as DEM template), is the previous entry; that the recursion over nested templates never reaches it unguarded is theorem C14_parameters_parsers_never_panic (parse_params_np), named here, not checked by the table");
   mkSite "hybrid/ecies/protoserialization.go" "parsePublicKey" "BigIntBytesToFixedSizeBuffer(x / y, c); slices.Concat([]byte{0x04}, x, y)" KSlice
     "x, y from BigIntBytesToFixedSizeBuffer"
-    (CModel (fun q : nat * nat * bytes => slice (fst (fst q)) (snd (fst q)) (snd q)) (ex_intro _ (1%nat, 0%nat, []) eq_refl)
-            (fun p : stdlib * list field * N * N => ecies_pub_of (fst (fst (fst p))) (snd (fst (fst p))) (snd (fst p)) (snd p))
-            (fun p => ecies_pub_of_np _ _ _ _));
+    (CArgued "the only checked operation is the slice inside fixed_size, which has its own entry (internal/ec/ec.go, CModel); that parsePublicKey of the model never panics is lemma ecies_pub_of_np, named here, not checked by the table");
   mkSite "hybrid/ecies/protoserialization.go" "ParseKey (private)" "publicKey.Parameters().(*Parameters).CurveType()" KTypeAssert
     "publicKey was built by this package's NewPublicKey with a *Parameters"
     (CArgued "static construction");
   mkSite "hybrid/ecies/protoserialization.go" "ParseKey (private)" "BigIntBytesToFixedSizeBuffer(privateKeyBytes, coordinateSize)" KSlice
     "as above"
-    (CModel (fun q : nat * nat * bytes => slice (fst (fst q)) (snd (fst q)) (snd q)) (ex_intro _ (1%nat, 0%nat, []) eq_refl)
-            (fun p : stdlib * keydata * N * N => parse_ecies_priv (fst (fst (fst p))) (snd (fst (fst p))) (snd (fst p)) (snd p))
-            (fun p => parse_ecies_priv_np _ _ _ _));
+    (CArgued "as above: the slice inside fixed_size (own entry); lemma parse_ecies_priv_np, named here, not checked by the table");
   mkSite "hybrid/ecies/protoserialization.go:185" "publicKeyToProtoPublicKey (serializer)" "publicKey.PublicKeyBytes()[0] != 0x04" KIndex
     "if len(publicKey.PublicKeyBytes()) != 2*coordinateSize+1 { return error } (the statement before)"
-    (CLemma (fun p : bytes * Z => first_byte (fst p)) (ex_intro _ ([], 0%Z) eq_refl)
-            (fun p => (0 <= snd p)%Z /\ zlen (fst p) = (2 * snd p + 1)%Z)
-            (fun p g => first_byte_np _ _ (proj1 g) (proj2 g)));
+    (CLemma index2 index2_panics serializer_first_byte_F serializer_first_byte_F_reach serializer_first_byte_F_np);
   mkSite "hybrid/ecies/protoserialization.go:188" "publicKeyToProtoPublicKey (serializer)" "publicKey.PublicKeyBytes()[1:], xy[:coordinateSize], xy[coordinateSize:]" KSlice
     "if len(publicKey.PublicKeyBytes()) != 2*coordinateSize+1 { return error } (same test)"
-    (CLemma (fun p : bytes * Z => point_coords_go (fst p) (snd p)) (ex_intro _ ([], 0%Z) eq_refl)
-            (fun p => (0 <= snd p)%Z /\ zlen (fst p) = (1 + 2 * snd p)%Z)
-            (fun p g => point_coords_go_np _ _ (proj1 g) (proj2 g)));
+    (CLemma slice3z slice3z_panics serializer_coords_F serializer_coords_F_reach serializer_coords_F_np);
   mkSite "hybrid/ecies (primitive constructor)" "NewHybridEncrypt" "xy := PublicKeyBytes()[1:]; xy[:coordinateSize]; xy[coordinateSize:]" KSlice
     "NewPublicKey validated the point"
-    (CModel (fun q : nat * nat * bytes => slice (fst (fst q)) (snd (fst q)) (snd q)) (ex_intro _ (1%nat, 0%nat, []) eq_refl)
-            (fun p : stdlib * keydata * N * N => bind (parse_key (fst (fst (fst p))) (snd (fst (fst p))) (snd (fst p)) (snd p)) (prim_ok (fst (fst (fst p)))))
-            (fun p => parse_then_prim_total _ _ _ _));
+    (CArgued "the three slices are checked slices inside prim_ok (PEcies false ...) of the model; that they stay in range for every key the parser accepted (the point has 1+2c bytes: lemma ecies_pub_of_ok) is part of theorem C14_parser_and_constructor_never_panic, named here, not checked by the table (no functional form was written for this branch of prim_ok)");
   mkSite "hybrid/ecies/parameters.go" "package-level DEM parameter table" "panic(failed to create ... parameters)" KExplicitPanic
     "arguments are constants"
     (CArgued "no input");
@@ -270,16 +204,10 @@ Definition panic_sites : list site := [
     (CArgued "constant bounds behind an exact length test (use path, not parse path)");
   mkSite "jwt/jwtecdsa/protoserialization.go" "ParseKey (public / private)" "BigIntBytesToFixedSizeBuffer(x / y / key, c), slices.Concat(0x04, x, y)" KSlice
     "as ECDSA"
-    (CModel (fun q : nat * nat * bytes => slice (fst (fst q)) (snd (fst q)) (snd q)) (ex_intro _ (1%nat, 0%nat, []) eq_refl)
-            (fun p : bool * stdlib * keydata * N * N =>
-               let '(priv, L, kd, prefix, idreq) := p in
-               if priv then parse_jwt_ecdsa_priv L kd prefix idreq else parse_jwt_ecdsa_pub L kd prefix idreq)
-            jwt_ecdsa_parsers_np);
+    (CArgued "as ECDSA: the slice inside fixed_size (own entry); lemmas parse_jwt_ecdsa_pub_np / parse_jwt_ecdsa_priv_np, named here, not checked by the table");
   mkSite "jwt/jwtecdsa/protoserialization.go:134" "publicKeyToProto (serializer)" "k.PublicPoint()[1:], xy[:coordinateSize], xy[coordinateSize:]" KSlice
     "no local test: a *PublicKey exists only through NewPublicKey, which validated the point with crypto/ecdh (len = 1+2c)"
-    (CLemma (fun p : bytes * Z => point_coords_go (fst p) (snd p)) (ex_intro _ ([], 0%Z) eq_refl)
-            (fun p => (0 <= snd p)%Z /\ zlen (fst p) = (1 + 2 * snd p)%Z)
-            (fun p g => point_coords_go_np _ _ (proj1 g) (proj2 g)));
+    (CArgued "the length 1+2c is established by ANOTHER function (NewPublicKey: crypto/ecdh accepts only points of that length), not by a test in this one: no as-written body with the guard inside to state a lemma about; under zlen pt = 1+2c the three slices are in range (lemma point_coords_go_np, named here, not checked by the table)");
   mkSite "jwt/jwt*/key.go" "computeKID" "make([]byte, 4); binary.BigEndian.PutUint32(buf, idRequirement)" KMake
     "constant size"
     (CArgued "constant bounds");
@@ -313,47 +241,62 @@ Definition panic_sites : list site := [
   (* ---- the PRF-based deriver key, the parameters parsers, the nested-key detours (model/UntrustedParams.v) ---- *)
   mkSite "keyderivation/prfbasedkeyderivation/protoserialization.go" "keyParser.ParseKey" "protoserialization.ParseKey(prfKeyProtoSerialization): the parser of WHATEVER key type prf_key names runs on attacker bytes (every slice of every key parser is reachable here, recursively through nested deriver / composite keys)" KSlice
     "NewParameters / NewKey refuse every key object that is not an aescmacprf / hkdfprf / hmacprf key AFTER the parser returned"
-    (CModel (fun q : nat * nat * bytes => slice (fst (fst q)) (snd (fst q)) (snd q)) (ex_intro _ (1%nat, 0%nat, []) eq_refl)
-            (fun p : stdlib * keydata * N * N => parse_key_full (fst (fst (fst p))) (snd (fst (fst p))) (snd (fst p)) (snd p))
-            (fun p => parse_key_full_np _ _ _ _));
+    (CArgued "the nested parser is whichever parser of model/Untrusted.v the type URL selects (or this one again): parse_key_x recurses on nested key data; that no nesting reaches Panic is theorem C14_nested_parsers_never_panic_and_agree (parse_key_x_np, parse_key_full_flat), named here, not checked by the table - the checked operations themselves have their own entries");
   mkSite "keyderivation/prfbasedkeyderivation/protoserialization.go" "keyParser.ParseKey / parametersParser.Parse" "protoserialization.ParseParameters(GetDerivedKeyTemplate()) / (GetPrfKeyTemplate()): the parameters parser of whatever type the template names, recursively (a deriver template inside a deriver template, an ECIES DEM template)" KNilDeref
     "templates are read through nil-safe getters (a nil template has the empty type URL: no parser, an error); the only checked operation inside the parameters parsers sits behind its nil test"
-    (CModel set_prefix_raw (ex_intro _ None eq_refl)
-            (fun p : stdlib * keydata * N * N => parse_key_full (fst (fst (fst p))) (snd (fst (fst p))) (snd (fst p)) (snd p))
-            (fun p => parse_key_full_np _ _ _ _));
+    (CArgued "no Panic to reach at this site in the model: template_of of an absent field is a total function (the empty type URL has no parser: Err); the parameters parsers themselves are the entry hybrid/ecies parseParameters / ParseParameters(demTemplate) above");
   mkSite "keyderivation/prfbasedkeyderivation/protoserialization.go" "keyParser.ParseKey" "prfKey.Parameters(), NewParameters(prfKey.Parameters(), derivedKeyParameters): method calls on interface values returned by ParseKey / ParseParameters" KNilDeref
     "err != nil returns before the value is used; every parser returns a non-nil object with a nil error"
     (CArgued "error checked first; in the model the results are outcome values bound with bind (Err stops the parser)");
   mkSite "keyderivation/prfbasedkeyderivation/parameters.go, key.go" "Parameters.HasIDRequirement / NewKey" "p.DerivedKeyParameters().HasIDRequirement(), parameters.PRFParameters().Equal(prfKey.Parameters()): method calls on the interface fields" KNilDeref
     "NewParameters: if prfParameters == nil / derivedKeyParameters == nil { return error }; NewKey: if parameters == nil / prfKey == nil { return error }"
-    (CLemma iface_has_idreq (ex_intro _ None eq_refl) (fun o => o <> None) iface_has_idreq_np);
+    (CArgued "nil tests in NewParameters / NewKey, the only constructors of the two types; in the model QDeriver holds two params values (not optional ones) and params_has_idreq is total - there is no Panic constructor to reach, so no lemma is claimed");
   mkSite "keyderivation/prfbasedkeyderivation/keyderiver.go, protoserialization.go" "NewKeyDeriver / DeriveKey / SerializeKey" "key.PRFKey().(*hkdfprf.Key) with ', ok'; prfKey.Parameters().(*hkdfprf.Parameters), k.key.Parameters().(*Parameters), pbdKey.Parameters().(*Parameters)" KTypeAssert
     "the first is the two-value form; the others assert the type the constructor of the same package stored"
     (CArgued "checked assertion / static construction; prim_ok_x of the model refuses every PRF key that is not an HKDF key");
   mkSite "keyderivation/internal/keyderivers/keyderivers.go" "the eight key derivers" "make([]byte, params.KeySizeInBytes()) with the key_size of the (untrusted) derived key template" KMake
-    "KeySizeInBytes is int(uint32 field): never negative on the 64-bit platform; the parameters parsers of HMAC, HKDF-PRF, HMAC-PRF and AES-GCM-HKDF streaming put NO upper bound on it"
-    (CLemma (fun n : Z => make_z n n) (ex_intro _ (-1)%Z eq_refl) (fun n => (0 <= n)%Z) make_z_np);
+    "none in the derivers; KeySizeInBytes is int(uint32 field) as the parameters parser left it: the parsers of HMAC, HKDF-PRF, HMAC-PRF and AES-GCM-HKDF streaming put NO upper bound on it"
+    (CArgued "PLATFORM ASSUMPTION, no lemma: make([]byte, n) panics (makeslice: len out of range) for n < 0 or n above the allocation limit; n = int(uint32) lies in [0, 2^32-1], which is below that limit on 64-bit platforms (no panic there: the run time maps up to 4 GiB and io.ReadFull then fails - see the note of checks/props/c14.py) and could be negative or too large on 32-bit platforms; the harness does not derive from templates above 1 MiB");
   mkSite "signature/compositemldsa/protoserialization.go" "parseMLDSAPublicKey / parseClassicalPublicKey / parseClassicalPrivateKey / privateKeyParser.ParseKey" "protoserialization.ParseKey on both nested KeyData: the parser of WHATEVER type they name runs first (a composite in a composite, a deriver ...), the type assertion / parameter comparison refuses the result afterwards" KSlice
     "if keyData == nil { return error } in front of each; every parser returns errors"
-    (CModel (fun q : nat * nat * bytes => slice (fst (fst q)) (snd (fst q)) (snd q)) (ex_intro _ (1%nat, 0%nat, []) eq_refl)
-            (fun p : stdlib * keydata * N * N => parse_key_full (fst (fst (fst p))) (snd (fst (fst p))) (snd (fst p)) (snd p))
-            (fun p => parse_key_full_np _ _ _ _));
+    (CArgued "as for the deriver: parse_composite_x hands both nested key data to parse_key_x (any type, recursively) and applies the type assertion / parameter comparison to the result; theorem C14_nested_parsers_never_panic_and_agree, named here, not checked by the table");
   mkSite "signature/rsassa{pkcs1,pss}, jwt/jwtrsassa{pkcs1,pss} protoserialization.go" "parametersParser.Parse / parseParameters" "int(exponent.Int64()) on the public_exponent of a key FORMAT" KIntConv
     "if !exponent.IsInt64() { return error } in front of it"
     (CArgued "integer conversion: truncates, does not panic; rsa_exponent in pp_rsa_pkcs1 / pp_rsa_pss / pp_jwt_rsa (None above 2^63-1); compared with the code on the exponent edges of params.go");
-  mkSite "*/*/protoserialization.go (30 files)" "parametersParser.Parse" "int(format.GetKeySize()), int(GetTagSize()), int32(GetCiphertextSegmentSize()), int(GetSaltLength()) ... on the fields of a key format" KIntConv
+  mkSite "*/*/protoserialization.go (29 files)" "parametersParser.Parse" "int(format.GetKeySize()), int(GetTagSize()), int32(GetCiphertextSegmentSize()), int(GetSaltLength()) ... on the fields of a key format" KIntConv
     "the NewParameters of the package compares the converted value with its bounds"
     (CArgued "integer conversions: do not panic; uint32 -> int is lossless on the 64-bit platform of the check, int32(uint32) and int(int32) wrap and the comparison that follows rejects every wrapped value (the same NewParameters as on the key path: theorem C14_wrapping_conversions_are_rejected); directedParams puts every varint field of every format at 0, 2^31-1, 2^31, 2^32-1, 2^32, 2^63, 2^64-1")
 ].
 
 (* Counts of the entries by constructor.  Only the first two kinds carry a
-   checked no-panic fact (of the fixed shapes above); the other three carry
-   none.  The numbers say nothing about the completeness of the list. *)
+   checked no-panic fact (of the functional shapes above: an entry of those
+   kinds needs a function that really calls the operation and never panics);
+   the other three carry none.  The numbers say nothing about the completeness
+   of the list. *)
 Theorem panic_site_coverage_counts :
   length panic_sites = 81%nat /\
-  count by_model_theorem panic_sites = 15%nat /\
-  count by_site_lemma panic_sites = 13%nat /\
-  count argued_only panic_sites = 46%nat /\
+  count by_model_theorem panic_sites = 7%nat /\
+  count by_site_lemma panic_sites = 10%nat /\
+  count argued_only panic_sites = 57%nat /\
   count is_stdlib panic_sites = 6%nat /\
   count is_harness_only panic_sites = 1%nat.
 Proof. vm_compute. repeat split. Qed.
+
+(* ---- the trivial inhabitants of the EARLIER shapes (fourth audit, /tmp/audc/coq/triv.v)
+   no longer type-check ---- *)
+(* 1. a function that has nothing to do with the operation: the operation is never reached *)
+Fail Definition bogus1 : site :=
+  mkSite "any.go" "anything" "x[i] on attacker data, unguarded" KIndex "none"
+    (CModel set_prefix_raw set_prefix_raw_panics (fun _ (_ : unit) => @Err unit)
+            (ex_intro _ tt eq_refl) (fun _ : unit => @Err unit) (fun _ => eq_refl) (fun _ => ltac:(discriminate))).
+Goal ~ exists a : unit, (fun (_ : option template -> outcome template) (_ : unit) => @Err unit) always_panic a = Panic.
+Proof. intros [a H]. discriminate H. Qed.
+(* 2. a guard nobody establishes (False): there is no guard argument any more; the old term is ill-typed *)
+Fail Definition bogus2 : site :=
+  mkSite "any.go" "anything" "x[i] on attacker data, unguarded" KIndex "none"
+    (CLemma set_prefix_raw (ex_intro _ None eq_refl) (fun _ => False) (fun a (H : False) => match H with end)).
+(* 3. raw applied directly with "guard = complement of its panic set": the body must contain the test *)
+Definition toy (b : bool) : outcome unit := if b then Panic else Ok tt.
+Fail Definition bogus3 : site :=
+  mkSite "any.go" "anything" "anything" KIndex "none"
+    (CLemma toy (ex_intro _ true eq_refl) (fun op b => op b) (ex_intro _ true eq_refl) (fun b => ltac:(discriminate))).
